@@ -316,3 +316,64 @@ def any_loss_pattern(wait_for_reply):
         check(fut.state == "result" and fut.value is answered_with, "the send completes with the packet that arrived (echo, or the awaited reply)")
     for i, d in enumerate(ghost("sleeps")):
         check(Or(d == 0.5, d == 1.0, d == 2.0, d == 4.0), "every wait is the base timeout times 1, 2, 4 or 8")
+
+
+# ---- send_cmd: the caller's side --------------------------------------------------------------------------------
+from ramses_tx.typing import QosParams  # noqa: E402
+
+
+async def wait_for_stub(fut, timeout):
+    """asyncio.wait_for by contract (A13): the future completes in time, or it is cancelled and
+    TimeoutError is raised."""
+    ghost("waits").append(timeout)
+    if fut.state == "result":
+        return fut.value
+    if fut.state == "exception":
+        raise fut.value
+    fut.cancel()
+    raise TimeoutError()
+
+
+def running_loop_stub():
+    return ghost("loop")[0]
+
+
+class EqCmd(FakeCmd):
+    """Commands compare equal when their frames are equal (as the real Command does)."""
+
+    def __eq__(self, other):
+        return self.tx_header == other.tx_header
+
+
+@harness("C08", stubs={asyncio.wait_for: wait_for_stub, asyncio.get_running_loop: running_loop_stub, asyncio.sleep: sleep_stub})
+def queued_caller_timing_out_leaves_the_sender_alone():
+    """send_cmd for a command B that is still queued when its caller's timeout expires, while an
+    *equal but distinct* command A is in flight: B's caller gets ProtocolSendFailed, the entry
+    queued is (priority, time, B, qos, future), the wait is min(qos.timeout, 20 s) -- and A's
+    transmission is not disturbed (state, future and retry count untouched)."""
+    ctx, loop = make_context()
+    ghost("loop").append(loop)
+    a, b = EqCmd("A"), EqCmd("B")
+    fut_a = FakeFuture()
+    ctx._cmd, ctx._qos, ctx._fut = a, FakeQos(3, 20.0, True), fut_a
+    ctx._cmd_tx_count, ctx._cmd_tx_limit = 1, 4
+    st = new_object(fsm.WantEcho, _context=ctx, _sent_cmd=a, _echo_pkt=None, _rply_pkt=None)
+    ctx._state = st
+    t = sym_float("timeout", 0.1, 60.0)
+    qos_b = FakeQos(3, t, True)
+    o = outcome(ctx.send_cmd, send_fnc, b, 2, qos_b)
+    check(o.raised_in(exc.ProtocolSendFailed), "the queued caller whose time is up gets ProtocolSendFailed")
+    check(len(ctx._que.items) == 1 and ctx._que.items[0][2] is b and ctx._que.items[0][0] == 2 and ctx._que.items[0][3] is qos_b,
+          "the command was queued as (priority, time, command, qos, future)")
+    check(ghost("waits") == [Ite(t < 20.0, t, 20.0)], "the caller waits min(qos.timeout, 20 s)")
+    check(And(ctx._state is st, ctx._cmd is a, ctx._fut is fut_a, fut_a.state == "pending", ctx._cmd_tx_count == 1),
+          "the command in flight (an equal but different command) is not disturbed")
+    check(ctx._que.items[0][4].done(), "the abandoned entry's future is done, so it will be skipped")
+
+
+@harness("C08")
+def qos_params_are_kept():
+    """QosParams keeps the retry count it is given -- in particular 0 means no retries."""
+    r = sym_int("max_retries", 0, 5)
+    q = outcome(QosParams, max_retries=r, timeout=sym_float("timeout", 0.1, 60.0), wait_for_reply=sym_bool("wait"))
+    check(q.ok and q.value.max_retries == r, "max_retries is the value given (0 stays 0)")
